@@ -3,6 +3,7 @@
 The decoder's protocol with its substrate: read(n) -> None = no data yet; fewer than n octets = short read
 (decoder seeks back and reports underrun); b'' for n != 0 = end of stream."""
 import io
+import sys
 
 
 class Gate(object):
@@ -54,6 +55,8 @@ class SeekableSched(io.BytesIO):
         self.gate = Gate(len(data), policy)
 
     def read(self, n=-1):
+        if n is not None and n > sys.maxsize:
+            raise OverflowError("cannot fit 'int' into an index-sized integer")   # as io.BytesIO does
         g = self.gate
         pos = self.tell()
         g.reads += 1
@@ -85,6 +88,8 @@ class RawSched(io.RawIOBase):
         return False
 
     def read(self, n=-1):
+        if n is not None and n > sys.maxsize:
+            raise OverflowError("cannot fit 'int' into an index-sized integer")   # as real raw streams do
         g = self.gate
         g.reads += 1
         k = g.answer(self.pos, n)
